@@ -1,5 +1,5 @@
 (* Facts about the character-level readers: what io_utils::token accepts, comments. *)
-From OM Require Import Base.Lists Geom.GeomLex.
+From OM Require Import Base.Lists Geom.GeomModel Geom.GeomFile Geom.GeomLex.
 
 Definition plain (name : list nat) : Prop := forall c, In c name -> isspace c = false /\ c <> 58.
 
@@ -61,4 +61,109 @@ Proof.
     destruct (Nat.eqb_spec c 10) as [->|Hn]; [exfalso; apply Hb; left; auto|]. simpl. apply IH. intros C; apply Hb; right; auto. }
   change (skip_comments_l (S f) (35 :: body ++ 10 :: rest)) with (skip_comments_l f (skip_line (body ++ 10 :: rest))).
   rewrite SL. reflexivity.
+Qed.
+
+(* ------------------------------------------------------------------ the Domains section: lexer refines the token level *)
+Definition word (t : list nat) : Prop := t <> [] /\ forall c, In c t -> isspace c = false.
+
+Definition render_line (name : list nat) (toks : list (list nat)) : list nat :=
+  s_Domain ++ 32 :: name ++ 58 :: flat_map (fun t => 32 :: t) toks ++ [10].
+
+Lemma take_while_app_stop (p : nat -> bool) a c r : (forall x, In x a -> p x = true) -> p c = false ->
+  take_while p (a ++ c :: r) = a /\ drop_while p (a ++ c :: r) = c :: r.
+Proof.
+  intros Ha Hc. induction a as [|x a IH]; simpl.
+  - rewrite Hc. auto.
+  - rewrite (Ha x (or_introl eq_refl)). destruct IH as [I1 I2]; [intros y Hy; apply Ha; right; auto|]. rewrite I1, I2. auto.
+Qed.
+
+Lemma take_drop_all (p : nat -> bool) t : (forall x, In x t -> p x = true) -> take_while p t = t /\ drop_while p t = [].
+Proof.
+  induction t as [|x t IH]; intros H; simpl; auto. rewrite (H x (or_introl eq_refl)).
+  destruct IH as [I1 I2]; [intros y Hy; apply H; right; auto|]. rewrite I1, I2. auto.
+Qed.
+
+Lemma split_ws_step fuel t r : word t -> (r = [] \/ exists r', r = 32 :: r') ->
+  split_ws (S fuel) (32 :: t ++ r) = t :: split_ws fuel r.
+Proof.
+  intros [Hne Hw] Hr. destruct t as [|c t]; [congruence|].
+  assert (Hc : isspace c = false) by (apply Hw; left; auto).
+  assert (Hp : forall x, In x (c :: t) -> (fun c0 => negb (isspace c0)) x = true) by (intros x Hx; simpl; rewrite (Hw x Hx); reflexivity).
+  change (split_ws (S fuel) (32 :: (c :: t) ++ r)) with
+    (match drop_while isspace ((c :: t) ++ r) with
+     | [] => []
+     | l' => take_while (fun c0 => negb (isspace c0)) l' :: split_ws fuel (drop_while (fun c0 => negb (isspace c0)) l')
+     end).
+  assert (D : drop_while isspace ((c :: t) ++ r) = (c :: t) ++ r) by (simpl; rewrite Hc; reflexivity).
+  rewrite D.
+  destruct Hr as [-> | [r' ->]].
+  - rewrite app_nil_r. destruct (take_drop_all _ (c :: t) Hp) as [T1 T2]. cbv beta iota zeta. rewrite T1, T2. reflexivity.
+  - destruct (take_while_app_stop _ (c :: t) 32 r' Hp eq_refl) as [T1 T2]. simpl app in *. cbv beta iota zeta. rewrite T1, T2. reflexivity.
+Qed.
+
+Lemma split_ws_words : forall toks fuel, Forall word toks -> (length (flat_map (fun t => 32 :: t) toks) < fuel)%nat ->
+  split_ws fuel (flat_map (fun t => 32 :: t) toks) = toks.
+Proof.
+  induction toks as [|t toks IH]; intros fuel F L.
+  - destruct fuel; reflexivity.
+  - destruct fuel as [|fuel]; [simpl in L; lia|]. inversion F as [|? ? W F']; subst.
+    simpl flat_map. rewrite split_ws_step; auto.
+    + f_equal. apply IH; auto. simpl in L. rewrite app_length in L. lia.
+    + destruct toks as [|u toks]; [left; reflexivity|right]. simpl. eexists; reflexivity.
+Qed.
+
+Lemma line_tokens_rendered toks rest : Forall word toks ->
+  line_tokens (mkS (flat_map (fun t => 32 :: t) toks ++ 10 :: rest) false) = (mkS rest false, toks).
+Proof.
+  intros F. unfold line_tokens. simpl bad. cbv iota. simpl inp.
+  assert (NL : forall x, In x (flat_map (fun t => 32 :: t) toks) -> negb (Nat.eqb x 10) = true).
+  { intros x Hx. apply in_flat_map in Hx. destruct Hx as [t [Ht Hx]]. rewrite Forall_forall in F. destruct (F t Ht) as [_ Hw].
+    destruct Hx as [<-|Hx]; [reflexivity|]. specialize (Hw x Hx). destruct (Nat.eqb_spec x 10); [subst; discriminate|reflexivity]. }
+  destruct (take_while_app_stop (fun c => negb (Nat.eqb c 10)) _ 10 rest NL eq_refl) as [T1 T2].
+  rewrite T1, T2. f_equal. apply split_ws_words; auto.
+Qed.
+
+Lemma domain_prefix tail : mtch s_Domain (skip_comments (mkS (s_Domain ++ tail) false)) = mkS tail false.
+Proof. reflexivity. Qed.
+
+Lemma render_line_shape name toks rest :
+  render_line name toks ++ rest = s_Domain ++ 32 :: name ++ 58 :: flat_map (fun t => 32 :: t) toks ++ 10 :: rest.
+Proof.
+  unfold render_line. rewrite <- app_assoc. f_equal. simpl. f_equal. rewrite <- app_assoc. f_equal. simpl. f_equal.
+  rewrite <- app_assoc. reflexivity.
+Qed.
+
+(* one rendered domain line is read back as its name and its tokens *)
+Lemma read_domain_line name toks rest : plain name -> name <> [] -> Forall word toks ->
+  read_domains V11 1 (mkS (render_line name toks ++ rest) false) = (mkS rest false, [(name, map dtok_of toks)]).
+Proof.
+  intros P N F. rewrite render_line_shape. unfold read_domains. rewrite domain_prefix.
+  rewrite (token_one_blank 32 name _ eq_refl P N).
+  rewrite (line_tokens_rendered toks rest F). reflexivity.
+Qed.
+
+(* the whole Domains section: n rendered lines are read back one after the other *)
+Fixpoint render_lines (ds : list (list nat * list (list nat))) : list nat :=
+  match ds with [] => [] | (n, toks) :: r => render_line n toks ++ render_lines r end.
+
+Lemma read_domains_cons n name toks tail : plain name -> name <> [] -> Forall word toks ->
+  read_domains V11 (S n) (mkS (render_line name toks ++ tail) false)
+  = (fst (read_domains V11 n (mkS tail false)), (name, map dtok_of toks) :: snd (read_domains V11 n (mkS tail false))).
+Proof.
+  intros P N F. rewrite render_line_shape. unfold read_domains at 1. fold read_domains. rewrite domain_prefix.
+  rewrite (token_one_blank 32 name _ eq_refl P N).
+  rewrite (line_tokens_rendered toks tail F).
+  destruct (read_domains V11 n (mkS tail false)) as [s4 r]. reflexivity.
+Qed.
+
+Lemma read_domains_rendered : forall ds rest,
+  Forall (fun d => plain (fst d) /\ fst d <> [] /\ Forall word (snd d)) ds ->
+  read_domains V11 (length ds) (mkS (render_lines ds ++ rest) false)
+  = (mkS rest false, map (fun d => (fst d, map dtok_of (snd d))) ds).
+Proof.
+  induction ds as [|[n toks] ds IH]; intros rest F; [reflexivity|].
+  inversion F as [|? ? (P & N & W) F']; subst. simpl in P, N, W.
+  change (render_lines ((n, toks) :: ds)) with (render_line n toks ++ render_lines ds).
+  rewrite <- app_assoc. change (length ((n, toks) :: ds)) with (S (length ds)).
+  rewrite (read_domains_cons _ n toks _ P N W), (IH rest F'). reflexivity.
 Qed.
